@@ -15,6 +15,7 @@ Safety model (bank-grade, fail closed):
 import json
 import logging
 import posixpath
+import re
 import time
 from typing import Dict, List, Optional, Set
 
@@ -26,6 +27,9 @@ logger = logging.getLogger(__name__)
 
 # Directory (relative to table root) holding in-flight transaction markers
 INFLIGHT_PATH = "metadata/inflight"
+# <16 hex digits>-<base name>: marker of a file outside data/ and metadata/manifests/
+# (see Transaction._marker_path_for)
+_DIGEST_MARKER_RE = re.compile(r"^[0-9a-f]{16}-")
 
 # Markers older than this are considered abandoned transactions; their files
 # become normal GC candidates. Must comfortably exceed any legitimate
@@ -253,9 +257,21 @@ class GarbageCollector:
         try:
             payload = json.loads(self.storage.read_file(marker_path).decode("utf-8"))
             target = payload.get("file_path")
-        except Exception:
-            return fallback
+        except Exception as e:
+            target = None
+            reason: object = e
+        else:
+            reason = "no usable file_path in its payload"
         if not isinstance(target, str) or not target:
+            if _DIGEST_MARKER_RE.match(name):
+                # Marker of a file in a sub-directory (pre-built file queued with
+                # append_files): its name carries a digest of the path, not the
+                # path. Without the payload the protected file is unknown, and
+                # guessing data/<name> would protect nothing - fail closed.
+                raise GarbageCollectionAborted(
+                    f"Aborting GC: cannot tell which file in-flight marker {marker_path} "
+                    f"protects ({reason}). Nothing was deleted."
+                )
             return fallback
         return {self._referenced_path(target)}
 
